@@ -21,7 +21,7 @@ def BOUNDS(tier):
     q = tier == "quick"
     return dict(M_N=10 if q else 12, D_K=4 if q else 5, D_lengths="K<=4: {1,2,3}; K=5: {1,2}", D_gaps=[0, 1],
                 D6="none" if q else "all 10395 diagrams x length vectors with at most one long stem x gaps {0,1}",
-                ladders="K=2..%d x 3 length patterns" % (8 if q else 12))
+                ladders="K=2..10 x 3 length patterns + K=11 x 1 pattern" if q else "K=2..12 x 3 length patterns")
 
 
 def _ladders(kmax):
@@ -69,7 +69,7 @@ def families(tier):
         ("many-stems", lambda: _many_stems(tier), 1),
         ("M", lambda: enum2d.M(10 if q else 12), 1),
         ("D", lambda: enum2d.D(4, lens=(1, 2, 3)), 1),
-        ("Lad", lambda: _ladders(8 if q else 12), 1),
+        ("Lad", lambda: (c for c in _ladders(11 if q else 12) if q is False or c["ladder"] <= 10 or c["lengths"][1] == 2), 1),  # 11 mutually crossing stems (one length pattern in quick: ~10 s): a two-digit level number in the MILP read-back
     ]
     if not q:
         fams.append(("D5", lambda: enum2d.D(5, kmin=5), 1))
